@@ -568,6 +568,10 @@ func registerMisc(t map[string]intrinsic) {
 		o := ex.newObj(tn.Type(), &Struct{[]Value{parent, args[1], args[2]}}, "valueCtx")
 		return Iface{T: types.NewPointer(tn.Type()), V: Ptr{Obj: o}}, nil
 	}
+	t["crypto/internal/constanttime.boolToUint8"] = func(ex *Exec, caller *frame, fn *ssa.Function, args []Value) (Value, *goPanic) {
+		return ex.C.Ite(args[0].(*Term), ex.C.Const(8, 1), ex.C.Const(8, 0)), nil
+	}
+	pureIntrinsics["crypto/internal/constanttime.boolToUint8"] = true
 	t["os.LookupEnv"] = lookupEnv
 	t["syscall.Getenv"] = lookupEnv
 	t["os.Getenv"] = func(ex *Exec, caller *frame, fn *ssa.Function, args []Value) (Value, *goPanic) {
